@@ -156,6 +156,15 @@ class FIXContainer:
         else:
             return None
 
+    @staticmethod
+    def _group_tag(tag) -> str:
+        # the same rule set() applies to plain tags
+        try:
+            int(str(tag))
+        except ValueError:
+            raise FIXMessageError("Tags must be only integers")
+        return str(tag)
+
     def add_group(self, tag: str | int, group: FIXContainer | dict, index: int = -1):
         """Add repeating group item to fix message.
 
@@ -165,9 +174,9 @@ class FIXContainer:
             index: where to insert new value, default: append
 
         Raises:
-            FIXMessageError: incorrect group type/value
+            FIXMessageError: incorrect group type/value, tag is not an integer
         """
-        tag = str(tag)
+        tag = self._group_tag(tag)
 
         if isinstance(group, dict):
             group = FIXContainer(group)
@@ -191,9 +200,9 @@ class FIXContainer:
 
         Raises:
             DuplicatedTagError: group with the same tag already exists
-            FIXMessageError: incorrect group type/value
+            FIXMessageError: incorrect group type/value, tag is not an integer
         """
-        tag = str(tag)
+        tag = self._group_tag(tag)
 
         if tag in self:
             raise DuplicatedTagError(f"group with {tag=} already exists")
